@@ -1,7 +1,7 @@
 #!/bin/bash
 # tools/seedbatch.sh PROP...: verify /tmp/seedout/PROP/m1,m2 with seedcheck, compact output
 for prop in "$@"; do for m in m1 m2; do
-  d=/tmp/seedout/$prop/$m
+  d=${SEEDDIR:-/tmp/seedout}/$prop/$m
   [ -f $d/patch.diff ] || continue
   pkg=$(grep -h -o -E "(pkg|plugin|cmd|staging)/[A-Za-z0-9_/.-]+" $d/demo*_test.go | grep -v "_test.go" | head -1 | sed 's#/$##')
   out=$(/verif/tools/seedcheck.sh $prop $d $pkg . 2>&1)
